@@ -100,7 +100,9 @@ Salt(T, abi, f) == (CHOOSE i \in 1..6 : <<"f32", "f64", "i32", "i64", "c32", "c6
 Cases ==
     UNION { UNION { { [T |-> p[1], abi |-> p[2], n |-> p[3], N |-> LaneCount(p[1], p[2], p[3]), op |-> of[1], form |-> of[2], mode |-> m[1], sc |-> m[2],
                        osc |-> OutScale(of[1], m[2]), gen |-> GenOf(p[1], of[1], of[2], m[1]), range |-> RangeOf(of[1], of[2]),
-                       mbits |-> (IF p[2] \in {"sse", "avx", "avx512"} THEN MK!DeclBits(p[1], p[2]) ELSE 8),
+                       \* generic / fixed_size vectors: mask type chosen from the lane count (uint8_t up to 8 lanes, then uint16_t, uint32_t, uint64_t)
+                       mbits |-> (IF p[2] \in {"sse", "avx", "avx512"} THEN MK!DeclBits(p[1], p[2])
+                                  ELSE LET nl == LaneCount(p[1], p[2], p[3]) IN IF nl <= 8 THEN 8 ELSE IF nl <= 16 THEN 16 ELSE IF nl <= 32 THEN 32 ELSE 64),
                        ndraw |-> NDraw(of[1], of[2], m[1]), iter |-> IterOf(of[1], of[2]), aligned |-> AlignedOf(of[1], of[2]),
                        masks |-> IF of[1] \in {"mload", "mstore"} /\ of[2] # "gp"
                                  THEN SetToSortSeq(MaskSet(LaneCount(p[1], p[2], p[3]), of[2], Salt(p[1], p[2], of[2])), LAMBDA x, y : x < y) ELSE <<>>]
